@@ -11,7 +11,7 @@
 namespace {
 
 static const int NSESS = 4;
-static const char *CAL_NAMES[] = {"alpha", "beta", "gamma", "delta", "cal with spaces", "\xc3\xa9talon", "alp", "alpha beta",	// (some are prefixes of others)
+static const char *CAL_NAMES[] = {"alpha", "beta", "~", "null", "cal with spaces", "\xc3\xa9talon", "alp", "alpha beta",	// (some are prefixes of others, two are what YAML reads as null when unquoted)
     "n08", "n09", "n10", "n11", "n12", "n13", "n14", "n15", "n16", "n17", "n18", "n19"};	// (used by the table-filling scenario only: the calibration table grows 1 -> 8 -> 16 -> ...)
 static const int NNAMES = 20;
 
@@ -1002,8 +1002,9 @@ static void run_op(CalWorld &w, const Op &op, const Plan &plan)
 		if (!solo_apply(c, slot.spec, slot.params, fq, dut_seed, o, solo, why)) { if (!c.violated) c.count("probe.sigma_twin_not_solved"); return; }
 		double d = max_diff(r, solo);
 		c.log(" sigma twin differs by %g", d);
-		if (!(d <= 1e-3)) { c.violate("model", "apply:sigma", strf("calibration \"%s\" with sigma vectors and its twin solved one frequency at a time with the sigma value supplied for that frequency differ by %.3g", name.c_str(), d)); return; }
+		if (!(d <= 1e-7)) { c.violate("model", "apply:sigma", strf("calibration \"%s\" with sigma vectors and its twin solved one frequency at a time with the sigma value supplied for that frequency differ by %.3g", name.c_str(), d)); return; }
 		c.count("probe.sigma_twin_agrees");
+		c.count(d <= 1e-10 ? "probe.sigma_twin_within_1e-10" : d <= 1e-8 ? "probe.sigma_twin_within_1e-8" : d <= 1e-7 ? "probe.sigma_twin_within_1e-7" : "probe.sigma_twin_within_tolerance");
 		c.nontrivial = true;
 		return;
 	    }
